@@ -170,21 +170,37 @@ def o3(W, ob):
             continue
         merges += 1
         cur = ('ap', 'self.disconnect_frame')
-        lt = cmp_atom('Lt', v, cur, True)
         unset = cmp_atom('Eq', cur, ('int', -1), True)
-        ok = bool(g) and all(conj_implies_atom(c, lt) or conj_implies_atom(c, unset) for c in g)
+        isset = cmp_atom('Ne', cur, ('int', -1), True)
+        # the stored value may be chosen by a `match` / `if` expression: one case per definition, each under the path condition of its defining block
+        cases = [(g, v)]
+        if v[0] == 'var' and isinstance(v[1], int):
+            pd = W.guards(f).phi_defs(v[1])
+            if pd:
+                cases = [(W.guard(f, bb), val) for bb, val in pd]
+
+        def merges_min(c, val):
+            if val[0] == 'min' and cur in val[1] and len(val[1]) == 2:
+                # min(pending, new) lowers only -- provided something IS pending (min with the NULL sentinel -1 would keep "nothing pending")
+                return conj_implies_atom(c, isset)
+            return conj_implies_atom(c, cmp_atom('Lt', val, cur, True)) or conj_implies_atom(c, unset)
+        ok = all(bool(gc) and all(merges_min(c, val) for c in gc) for gc, val in cases)
         ob.check(ok, '%s|disconnect_frame|min-merge' % short(f.path),
                  'a new pending disconnect frame is only ever lowered (min-merge with the one already pending)',
                  'disconnect_frame := %s is not a min-merge: the store is not guarded by `disconnect_frame == NULL | new < '
-                 'disconnect_frame` (guard: %s) -- an earlier pending cut-off can be overwritten by a later one' % (key(v), dnf_str(g)[:300]),
+                 'disconnect_frame` (guard: %s) -- an earlier pending cut-off can be overwritten by a later one' % (' / '.join(key(val) for _, val in cases), dnf_str(g)[:300]),
                  where(f, w['line']))
         # O3b: value = last_frame + 1, skipped only when nothing was simulated past it
-        okv = key(v) == '(arg3 Add 1)'
+        new_frame = ('bin', 'Add', ('ap', 'arg3'), ('int', 1), 'int')
+
+        def is_start(val):
+            return key(val) == '(arg3 Add 1)' or (val[0] == 'min' and len(val[1]) == 2 and cur in val[1] and any(key(x) == '(arg3 Add 1)' for x in val[1]))
+        okv = all(is_start(val) for _, val in cases)
         skip_ok = every_disjunct_has(g, lambda a: match_lin(a, [(exact('self.sync_layer.current_frame'), 1), (exact('arg3'), -1)], lo=2))
         too_strict = every_disjunct_has(g, lambda a: match_lin(a, [(exact('self.sync_layer.current_frame'), 1), (exact('arg3'), -1)], lo=3))
         ob.check(okv and skip_ok and not too_strict, '%s|disconnect_frame|start' % short(f.path),
                  'resimulation starts at last_frame + 1 and is requested whenever current_frame > last_frame + 1',
-                 'disconnect_frame := %s under %s; expected last_frame + 1 whenever current_frame > last_frame + 1' % (key(v), dnf_str(g)[:200]),
+                 'disconnect_frame := %s under %s; expected last_frame + 1 whenever current_frame > last_frame + 1' % (' / '.join(key(val) for _, val in cases), dnf_str(g)[:200]),
                  where(f, w['line']))
     ob.require_count(merges, 1, 'merging stores to disconnect_frame')
 
